@@ -24,6 +24,10 @@ for run in req['runs']:
             p = os.path.join(d, name)
             if content == '<dir>':
                 os.mkdir(p)
+            elif isinstance(content, dict):
+                # {'enc': ..., 'text': ...}: the document stored in that encoding with the matching declaration
+                with open(p, 'wb') as f:
+                    f.write(('<?xml version="1.0" encoding="%s"?>' % content['enc'] + content['text']).encode(content['enc']))
             elif content is not None:
                 with open(p, 'wb') as f:
                     f.write(content.encode('utf-8') if isinstance(content, str) else bytes(content))
